@@ -132,7 +132,15 @@ def run(chk):
                       % (", ".join("%s:%s" % e for e in errs[:3]) or log[-300:], diff or "(no difference in generated files)"),
                       {"theorems": PROPS, "log": log[-4000:], "generated": st, "gen_diff": diff}, found_input=False)
     K = vlib.consts()
-    h = build.harness("h_limits")
+    # private copies: the build cache is pruned by concurrent checks of other trees, the model runner is rebuilt by others
+    hsrc = build.harness("h_limits")
+    h = os.path.join(build.scratch_root(), "verif-hlimits-c15-%d" % os.getpid())
+    for attempt in range(3):
+        try:
+            shutil.copy2(hsrc, h)
+            break
+        except FileNotFoundError:
+            hsrc = build.harness("h_limits")
     chk.cov.setdefault("phase_s", {})["proofs"] = round(time.time() - chk.t0, 1)
     try:
         tmm = time.time()
@@ -140,14 +148,19 @@ def run(chk):
         _t(chk, "model_build", tmm)
     except vlib.CoqError as e:
         chk.violation("model", "model runner cannot be built: " + str(e)[-800:], {"error": str(e)[-3000:]}, found_input=False)
+        try:
+            os.remove(h)
+        except OSError:
+            pass
         return
     try:
         _run(chk, K, h, model, quick)
     finally:
-        try:
-            os.remove(model)
-        except OSError:
-            pass
+        for f in (model, h):
+            try:
+                os.remove(f)
+            except OSError:
+                pass
 
 
 def _t(chk, what, t0):
